@@ -65,6 +65,28 @@ var (
 
 var backend atomic.Pointer[MemFS]
 
+// realRoot, if set, is prepended to every path when calls go to the real
+// operating system, so that the harness can run the same absolute paths it
+// uses on MemFS inside a scratch directory (shim-fidelity runs, engine R).
+var realRoot atomic.Pointer[string]
+
+// SetRealRoot sets (or, with "", clears) the directory under which absolute
+// paths are placed when the real operating system is the backend.
+func SetRealRoot(dir string) {
+	if dir == "" {
+		realRoot.Store(nil)
+		return
+	}
+	realRoot.Store(&dir)
+}
+
+func rp(name string) string {
+	if r := realRoot.Load(); r != nil && len(name) > 0 && name[0] == '/' {
+		return *r + name
+	}
+	return name
+}
+
 // SetBackend installs fs as the file system behind this package (nil = the
 // real operating system).
 func SetBackend(fs *MemFS) { backend.Store(fs) }
@@ -95,7 +117,7 @@ func OpenFile(name string, flag int, perm FileMode) (*File, error) {
 	write := flag&(O_CREATE|O_TRUNC) != 0
 	if fs == nil {
 		point("OpenFile", name, write)
-		f, err := os.OpenFile(name, flag, perm)
+		f, err := os.OpenFile(rp(name), flag, perm)
 		if err != nil {
 			return nil, err
 		}
@@ -147,7 +169,7 @@ func Stat(name string) (FileInfo, error) {
 	fs := backend.Load()
 	if fs == nil {
 		point("Stat", name, false)
-		return os.Stat(name)
+		return os.Stat(rp(name))
 	}
 	point("Stat", cleanPath(name), false)
 	return fs.stat(name)
@@ -159,7 +181,7 @@ func Remove(name string) error {
 	fs := backend.Load()
 	if fs == nil {
 		point("Remove", name, true)
-		return os.Remove(name)
+		return os.Remove(rp(name))
 	}
 	point("Remove", cleanPath(name), true)
 	return fs.remove(name)
@@ -169,7 +191,7 @@ func RemoveAll(name string) error {
 	fs := backend.Load()
 	if fs == nil {
 		point("RemoveAll", name, true)
-		return os.RemoveAll(name)
+		return os.RemoveAll(rp(name))
 	}
 	point("RemoveAll", cleanPath(name), true)
 	return fs.removeAll(name)
@@ -179,7 +201,7 @@ func Rename(oldpath, newpath string) error {
 	fs := backend.Load()
 	if fs == nil {
 		point("Rename", oldpath, true)
-		return os.Rename(oldpath, newpath)
+		return os.Rename(rp(oldpath), rp(newpath))
 	}
 	point("Rename", cleanPath(oldpath), true)
 	return fs.rename(oldpath, newpath)
@@ -189,7 +211,7 @@ func Truncate(name string, size int64) error {
 	fs := backend.Load()
 	if fs == nil {
 		point("Truncate", name, true)
-		return os.Truncate(name, size)
+		return os.Truncate(rp(name), size)
 	}
 	point("Truncate", cleanPath(name), true)
 	return fs.truncate(name, size)
@@ -199,7 +221,7 @@ func Mkdir(name string, perm FileMode) error {
 	fs := backend.Load()
 	if fs == nil {
 		point("Mkdir", name, true)
-		return os.Mkdir(name, perm)
+		return os.Mkdir(rp(name), perm)
 	}
 	point("Mkdir", cleanPath(name), true)
 	return fs.mkdir(name, false)
@@ -209,7 +231,7 @@ func MkdirAll(name string, perm FileMode) error {
 	fs := backend.Load()
 	if fs == nil {
 		point("MkdirAll", name, true)
-		return os.MkdirAll(name, perm)
+		return os.MkdirAll(rp(name), perm)
 	}
 	point("MkdirAll", cleanPath(name), true)
 	return fs.mkdir(name, true)
@@ -219,7 +241,11 @@ func MkdirTemp(dir, pattern string) (string, error) {
 	fs := backend.Load()
 	if fs == nil {
 		point("MkdirTemp", dir, true)
-		return os.MkdirTemp(dir, pattern)
+		d, err := os.MkdirTemp(rp(dir), pattern)
+		if r := realRoot.Load(); err == nil && r != nil && len(d) > len(*r) && d[:len(*r)] == *r {
+			d = d[len(*r):]
+		}
+		return d, err
 	}
 	point("MkdirTemp", cleanPath(dir), true)
 	return fs.mkdirTemp(dir, pattern)
@@ -229,7 +255,7 @@ func ReadDir(name string) ([]DirEntry, error) {
 	fs := backend.Load()
 	if fs == nil {
 		point("ReadDir", name, false)
-		return os.ReadDir(name)
+		return os.ReadDir(rp(name))
 	}
 	return nil, errors.New("vos: ReadDir not supported on MemFS")
 }
